@@ -196,6 +196,7 @@ pub fn execute(case: &Case, rep: &mut RunReport) -> Result<(), Violation> {
     let sim = Sim::new(&cfg);
     sim.install_clock_here();
     let store = SimStore::new(sim.clone(), base_image());
+    store.set_response_delay(simcore::store::seeded_response_delay(case.seed));
     let nexus = block(open_nexus(&store)).map_err(|e| violation!("c17.boot", "nexus failed to open on the base image: {e}"))?;
     let session = nexus.system_session();
     let mut reg = Registry::default();
